@@ -233,6 +233,24 @@ def run(ck):
             # only the tests that lie inside the wrapper's own logic: the innermost one decides (outer ones, e.g. of a caller the
             # wrapper was expanded into, are not about the mode)
             guards = [(b, k) for b, k in guards if ("v:" + modep[0]) in (b.term.get("refs") or []) or any(r_.startswith("v:mode") for r_ in (b.term.get("refs") or []))] or guards
+            # `switch (mode) { case Mode::Edge: ev.events |= EPOLLET; break; ... }`
+            sw_ok = None
+            if not [g_ for g_ in guards if ("v:" + modep[0]) in (g_[0].term.get("refs") or []) or any(r_.startswith("v:mode") for r_ in (g_[0].term.get("refs") or []))]:
+                domw = cfg.dominators(wf)
+                for b in wf.blocks.values():
+                    if (b.term or {}).get("k") != "switch":
+                        continue
+                    refs_ = {r_.split("@")[0] if r_.startswith("v:") else r_ for r_ in (b.term.get("refs") or [])}
+                    for s_ in b.succs:
+                        lab_ = (wf.blocks[s_].label or {}) if s_ in wf.blocks else {}
+                        if lab_.get("k") == "case" and (s_ == e.block or s_ in domw.get(e.block, ())):
+                            only_from_switch = all(p_ == b.id for p_ in wf.blocks[s_].preds)
+                            sw_ok = str(lab_.get("const") or "").endswith("Mode::Edge") and only_from_switch and not (refs_ - {"v:" + modep[0], "v:mode"})
+            if sw_ok is not None:
+                ck.ob("C07-R14", "%s/EPOLLET-iff-edge-mode" % wf.base.replace("Pistache::Polling::", ""), sw_ok, e.loc, wf,
+                      "EPOLLET is set under `case Mode::Edge` of a switch over the mode" if sw_ok else
+                      "EPOLLET is set under a case label that is not (only) Mode::Edge of a switch over the caller's mode")
+                continue
             tern = re.search(r"\(?\s*([^?()]*)\)?\s*\?[^:]*EPOLLET", e.get("t") or "")
             if not guards and tern:
                 # `return (mode == Mode::Edge) ? (bits | EPOLLET) : bits;`
